@@ -787,6 +787,10 @@ namespace foonathan
             joint_array(allocate_only, detail::joint_stack& stack, std::size_t size)
             : ptr_(nullptr), size_(0u)
             {
+                // an empty array needs no memory, not even alignment padding
+                // (the range constructor does not take any for an empty range either)
+                if (size == 0u)
+                    return;
                 ptr_ = static_cast<T*>(stack.allocate(size * sizeof(T), alignof(T)));
                 if (!ptr_)
                     FOONATHAN_THROW(out_of_fixed_memory(info(), size * sizeof(T)));
